@@ -3,6 +3,7 @@ package mc
 import (
 	"fmt"
 	"sort"
+	"strings"
 )
 
 // WorkItem is one unit of work handed to a worker process.
@@ -188,6 +189,12 @@ func init() {
 			}
 			for _, sc := range FamilySharp(tier) {
 				items = append(items, explore("C01", sc, b+1, true))
+			}
+			// timeouts, retries and late answers inside a sequence (the next action must still wait for a real success)
+			for _, sc := range FamilyRetry(tier) {
+				if strings.HasPrefix(sc.Name, "retry-seq-r1") || strings.HasPrefix(sc.Name, "retry-seq-r2") {
+					items = append(items, exploreCap("C01", sc, b+2, false, 60))
+				}
 			}
 			return items
 		},
